@@ -356,11 +356,18 @@ class ProgGen:
         else:
             upd = '(%s * 3 + %s) %% 1000' % (acc, i)
         ret = i if kind == 1 else acc
+        rec = 'Main.%s(%s, %s, %s)' % (name, step, upd, n)
+        if r.chance(1, 4):
+            # a second exit in front of the tail call: constant (folded by constant propagation: the loop body then ends in
+            # an unconditional break after a conditional one) or data dependent (an early exit)
+            self.features.add('loop-early-exit')
+            cond = r.pick(['0 < 1', '1 < 0', 'true', 'false', '%s == 7' % acc, '%s %% 5 == 3' % i, '%s > 40' % acc])
+            rec = 'if %s { %s } else { %s }' % (cond, r.pick(['2', acc, '%s + 1' % i, '%s - %s' % (acc, i)]), rec)
         if r.chance(1, 2):
-            body = 'if %s %s %s { Main.%s(%s, %s, %s) } else { %s }' % (i, op, n, name, step, upd, n, ret)
+            body = 'if %s %s %s { %s } else { %s }' % (i, op, n, rec, ret)
         else:
             inv = {'<': '>=', '<=': '>', '>': '<=', '>=': '<', '!=': '=='}[op]
-            body = 'if %s %s %s { %s } else { Main.%s(%s, %s, %s) }' % (i, inv, n, ret, name, step, upd, n)
+            body = 'if %s %s %s { %s } else { %s }' % (i, inv, n, ret, rec)
         text = '  function %s(i: int, acc: int, n: int): int = %s' % (name, body)
         return text, name, op, stride
 
